@@ -9,6 +9,9 @@ read_pil_cfg    [class table (ignored), class names (ignored), slots, prelude, t
 read_pil_release [text]  read a document, keep weak references to every object of the result, drop the
                 dictionary, run ONE gc.collect() and report the survivors (C05)
 c14_views       [text, ignore]  read_pil(text) vs read_pil(path, is_file=True) vs line-by-line reading
+reader_kept_consistent [text, ignore]  the same with ignore
+reader_session  [text1, text2]  read text1, hold the result, read text2: True when both reads return and every name of
+                the second result that the first result has too is the very same object
 reader_consistent [text]  True when set_io_objects(); read_pil(text) returns a dictionary (the model op of the
                 same name computes whether the statements form a consistent system, which by
                 C14_reader_builds implies that the document is read)"""
@@ -76,6 +79,37 @@ def register(op):
             return isinstance(out, dict)
         finally:
             out = None
+            fresh()
+
+    @op("reader_kept_consistent")
+    def _(a):
+        text, ignore = a
+        fresh()
+        objectio.set_io_objects()
+        out = None
+        try:
+            out = objectio.read_pil(text, ignore=ignore)
+            return isinstance(out, dict)
+        finally:
+            out = None
+            fresh()
+
+    @op("reader_session")
+    def _(a):
+        text1, text2 = a
+        fresh()
+        objectio.set_io_objects()
+        out1 = out2 = None
+        try:
+            out1 = objectio.read_pil(text1)
+            out2 = objectio.read_pil(text2)
+            for f in ("domains", "strands", "complexes", "macrostates"):
+                for n, o in out2[f].items():
+                    if n in out1[f] and out1[f][n] is not o:
+                        return "NotIdentical:" + f + ":" + n
+            return True
+        finally:
+            out1 = out2 = None
             fresh()
 
     # ------------------------------------------------------------------
